@@ -237,7 +237,10 @@ fn check(c: &Case, ctx: &Ctx) -> Outcome {
                 if (c.rc_mask as usize + samples.len()) % 2 == 0 && i % 3 != 1 {
                     fq += &format!("{name}\tsmp{i}.fa\n");
                 } else {
-                    if i % 8 == 6 {
+                    if c.rc_mask % 4 == 3 && i >= samples.len() / 2 {
+                        // the second half of the list: single-end reads, one FASTQ file per sample (two columns)
+                        fq += &format!("{name}\tsmp{i}_1.fastq\n");
+                    } else if i % 8 == 6 {
                         // single-end reads listed as a pair: the same file in both columns is read twice
                         fq += &format!("{name}\tsmp{i}_1.fastq\tsmp{i}_1.fastq\n");
                     } else {
